@@ -274,6 +274,7 @@ struct Stats {
     for_desugared: usize,
     letchain_unfolded: usize,
     optmap_inlined: usize,
+    guard_match: usize,
 }
 
 struct OpRewriter<'a> {
@@ -435,6 +436,7 @@ impl<'a> VisitMut for LetChain<'a> {
 struct OptMapInline<'a> {
     stats: &'a mut Stats,
     plain_map: bool,
+    result_map: bool,
 }
 struct HasEscape(bool);
 impl<'ast> Visit<'ast> for HasEscape {
@@ -465,7 +467,11 @@ impl<'a> VisitMut for OptMapInline<'a> {
                             };
                             let b = &c.body;
                             self.stats.optmap_inlined += 1;
-                            *e = syn::parse_quote!(match #x { Some(#p) => Some(#b), None => None });
+                            if self.result_map {
+                                *e = syn::parse_quote!(match #x { Ok(#p) => Ok(#b), Err(__vx_e) => Err(__vx_e) });
+                            } else {
+                                *e = syn::parse_quote!(match #x { Some(#p) => Some(#b), None => None });
+                            }
                             return;
                         }
                     }
@@ -496,6 +502,29 @@ impl<'a> VisitMut for OptMapInline<'a> {
                         }
                     }
                 }
+            }
+        }
+    }
+}
+
+/// R13: `match E { P if G => A, _ => B }` (exactly these two arms) → `if let P = E { if G { A } else { B } } else { B }`.
+/// Same evaluation order and bindings; B is duplicated syntactically but exactly one copy runs. Needed because the
+/// installed Verus loses the frame of `&mut self` across a guarded match arm that contains `?`. Opt-in (`r13`).
+struct GuardMatch<'a> {
+    stats: &'a mut Stats,
+}
+impl<'a> VisitMut for GuardMatch<'a> {
+    fn visit_expr_mut(&mut self, e: &mut syn::Expr) {
+        syn::visit_mut::visit_expr_mut(self, e);
+        if let syn::Expr::Match(m) = e {
+            if m.arms.len() == 2 && m.arms[0].guard.is_some() && m.arms[1].guard.is_none() && matches!(m.arms[1].pat, syn::Pat::Wild(_)) {
+                let scrut = &m.expr;
+                let p = &m.arms[0].pat;
+                let g = &m.arms[0].guard.as_ref().unwrap().1;
+                let a = &m.arms[0].body;
+                let b = &m.arms[1].body;
+                self.stats.guard_match += 1;
+                *e = syn::parse_quote!(if let #p = #scrut { if #g { #a } else { #b } } else { #b });
             }
         }
     }
@@ -900,9 +929,15 @@ fn emit_fn(ctx: &mut Ctx, d: &FnDir, out: &mut String) {
         ForDesugar { stats: &mut stats, which, next: 0 }.visit_block_mut(&mut block);
     }
 
+    // ---- R13 (opt-in)
+    if d.opts.contains_key("r13") {
+        GuardMatch { stats: &mut stats }.visit_block_mut(&mut block);
+
+    }
     // ---- R10 (opt-in)
-    if d.opts.contains_key("r10") || d.opts.contains_key("r10map") {
-        OptMapInline { stats: &mut stats, plain_map: d.opts.contains_key("r10map") }.visit_block_mut(&mut block);
+    if d.opts.contains_key("r10") || d.opts.contains_key("r10map") || d.opts.contains_key("r10rmap") {
+        OptMapInline { stats: &mut stats, plain_map: d.opts.contains_key("r10map") || d.opts.contains_key("r10rmap"), result_map: d.opts.contains_key("r10rmap") }
+            .visit_block_mut(&mut block);
     }
 
     // ---- R1
@@ -1105,6 +1140,18 @@ fn emit_fn(ctx: &mut Ctx, d: &FnDir, out: &mut String) {
         }
     }
 
+    for (k, v) in &d.opts {
+        if k.starts_with("suball") {
+            let (from, to) = v.split_once("=>").unwrap_or_else(|| die("suballN= expects from=>to"));
+            let fromp = pretty(TokenStream::from_str(from).unwrap_or_else(|_| die("bad suball")), 0);
+            let n = body.matches(fromp.trim()).count();
+            if n == 0 {
+                die(&format!("lost anchor: substitution `{}` matches nothing in {}", fromp.trim(), d.path));
+            }
+            body = body.replace(fromp.trim(), to.trim());
+            subs_done.push(format!("{} => {} ({}x)", from.trim(), to.trim(), n));
+        }
+    }
     let name_out = sig.ident.to_string();
     let qual = match (&f.self_ty, free) {
         (Some(t), false) => format!("{}::{}", type_last_ident(t).unwrap_or_default(), name_out),
@@ -1149,7 +1196,7 @@ fn emit_fn(ctx: &mut Ctx, d: &FnDir, out: &mut String) {
     let (nreq, nens) = count_clauses(&d.spec);
     let ninv: usize = d.loops.values().map(|s| count_clauses(&s.replace("invariant", "ensures")).1).sum();
     let rep = format!(
-        "{{\"kind\":\"fn\",\"name\":{},\"file\":{},\"item\":{},\"closure\":{},\"src_lines\":[{},{}],\"src_hash\":\"{:016x}\",\"attrs_dropped\":{},\"rewrites\":{{\"R1_binops\":{},\"R1_neg\":{},\"R2_rt_params\":{},\"R3_tx_lifted\":{},\"R5_letchains\":{},\"R6_for_desugared\":{},\"R10_optmap_inlined\":{},\"loops\":{},\"substitutions\":[{}]}},\"clauses\":{{\"requires\":{},\"ensures\":{},\"invariants\":{}}},\"novac\":{}}}",
+        "{{\"kind\":\"fn\",\"name\":{},\"file\":{},\"item\":{},\"closure\":{},\"src_lines\":[{},{}],\"src_hash\":\"{:016x}\",\"attrs_dropped\":{},\"rewrites\":{{\"R1_binops\":{},\"R1_neg\":{},\"R2_rt_params\":{},\"R3_tx_lifted\":{},\"R5_letchains\":{},\"R6_for_desugared\":{},\"R10_optmap_inlined\":{},\"R13_guard_match\":{},\"loops\":{},\"substitutions\":[{}]}},\"clauses\":{{\"requires\":{},\"ensures\":{},\"invariants\":{}}},\"novac\":{}}}",
         json_str(&qual),
         json_str(&d.file),
         json_str(&d.path),
@@ -1165,6 +1212,7 @@ fn emit_fn(ctx: &mut Ctx, d: &FnDir, out: &mut String) {
         stats.letchain_unfolded,
         stats.for_desugared,
         stats.optmap_inlined,
+        stats.guard_match,
         stats.loops,
         subs_done.iter().map(|s| json_str(s)).collect::<Vec<_>>().join(","),
         nreq,
@@ -1306,17 +1354,31 @@ fn emit_item(ctx: &mut Ctx, file: &str, name: &str, opts: &BTreeMap<String, Stri
     if let Some(a) = opts.get("attr") {
         let _ = writeln!(out, "{}", a);
     }
-    let txt = pretty(it.to_token_stream(), 0);
+    let mut txt = pretty(it.to_token_stream(), 0);
+    let mut tsubs = vec![];
+    for (k, v) in opts {
+        if k.starts_with("tsub") {
+            let (from, to) = v.split_once("=>").unwrap_or_else(|| die("tsubN= expects from=>to"));
+            let fromp = pretty(TokenStream::from_str(from).unwrap_or_else(|_| die("bad tsub")), 0);
+            let n = txt.matches(fromp.trim()).count();
+            if n == 0 {
+                die(&format!("lost anchor: item substitution `{}` matches nothing in {}", fromp.trim(), name));
+            }
+            txt = txt.replace(fromp.trim(), to.trim());
+            tsubs.push(format!("{} => {} ({}x)", from.trim(), to.trim(), n));
+        }
+    }
     if let Some((orig, v)) = &folded {
         let _ = writeln!(out, "// const-folded by vx: {} = {}", orig, v);
     }
     let _ = writeln!(out, "{}", txt.trim_end());
     let _ = writeln!(out, "//vx-end item {}", name);
     ctx.report.push(format!(
-        "{{\"kind\":\"item\",\"name\":{},\"file\":{},\"text\":{}}}",
+        "{{\"kind\":\"item\",\"name\":{},\"file\":{},\"text\":{},\"substitutions\":[{}]}}",
         json_str(name),
         json_str(file),
-        json_str(txt.trim())
+        json_str(txt.trim()),
+        tsubs.iter().map(|x| json_str(x)).collect::<Vec<_>>().join(",")
     ));
 }
 
